@@ -15,14 +15,17 @@ from common import Ctx, REPO, frac, run_driver
 from translate import align as align_tr
 
 PROP = "C11"
-LEAN_MODULE = "TopSearch.Props.C11"
-LEAN_FILES = ["TopSearch.Props.C11", "TopSearch.Lemmas.Align", "TopSearch.Model.Align"]
+LEAN_MODULE = "TopSearch.Props.C11Ties"
+LEAN_FILES = ["TopSearch.Props.C11", "TopSearch.Props.C11Ties", "TopSearch.Lemmas.Align", "TopSearch.Model.Align"]
 EXTRA_TARGETS = ["TopSearch.Gen.Align", "TopSearch.Model.Align"]
 P = "TopSearch.Props.C11."
 REQUIRED = [P + n for n in [
     "C11_bridge_returns", "C11_scan_mem", "C11_scan_min", "C11_returns_candidate", "C11_match_iff",
     "C11_min_otherwise", "C11_perm_assembly", "C11_group_order_irrelevant", "C11_rigid_image",
-    "C11_species_preserved"]]
+    "C11_species_preserved",
+    # tie-breaking left open (Props/C11Ties.lean)
+    "C11_improve_admissible", "C11_optimalAlignmentG_strict", "C11_scanG_early", "C11_tie_returns_candidate",
+    "C11_tie_match_iff", "C11_tie_min_otherwise", "C11_tie_distance_independent", "C11_tie_current_source", "C11_tie_exact_same"]]
 RULE = ("cases = scripted candidate-distance sequences through the real optimal_alignment / "
         "test_exact_same (which candidate is returned, return types), permutation assemblies of the real "
         "permutational_alignment on random clusters and the test molecules, and rigid-copy alignments; "
